@@ -1124,3 +1124,22 @@ package core
 //@ func (*Location).AddRule
 //@   assert[C07+C10.stored_rule_has_no_relative_ttl] at "loc.state.Add(ctx, id, wrapper)": !has(wrapper, "ttl") && !has(rule, "ttl")
 //@   assert[C07+C10.stored_rule_lifetime_is_absolute] at "loc.state.Add(ctx, id, wrapper)": expiring ==> has(wrapper, "expires") && is(wrapper["expires"], int64) && wrapper["expires"].(int64) == expires
+
+// C08: the cascade always looks for the dependents (it never decides from some other index that there are none)
+//@ ghost depSearches int
+//@ func (*IndexedState).search
+//@   ghost-ensures depSearches == old(depSearches) + 1
+//@   also-modifies depSearches
+//@ func (*LinearState).search
+//@   ghost-ensures depSearches == old(depSearches) + 1
+//@   also-modifies depSearches
+//@ func (*IndexedState).deleteDependencies
+//@   ensures[C08.ix_cascade_always_searches_for_dependents] depSearches > old(depSearches)
+//@   loop 1: invariant[C08.ix_cascade_searched] depSearches > old(depSearches)
+//@ func (*LinearState).deleteDependencies
+//@   ensures[C08.lin_cascade_always_searches_for_dependents] depSearches > old(depSearches)
+//@   loop 1: invariant[C08.lin_cascade_searched] depSearches > old(depSearches)
+//@ func (*IndexedState).rem
+//@   ensures[C08.ix_rem_search_count_monotone] depSearches >= old(depSearches)
+//@ func (*LinearState).rem
+//@   ensures[C08.lin_rem_search_count_monotone] depSearches >= old(depSearches)
